@@ -136,6 +136,20 @@ def strategy_runtime_of(world_case, t, decisions_by_task):
     return decisions_by_task.get(t)
 
 
+def _placed_then_unplaced(decision):
+    """One scheduler answer holds a placed PLACE_TASK decision of a task and, later, an unplaced one of the same task."""
+    placed = set()
+    for p in decision.get("placements", []):
+        if p.get("kind") != "place":
+            continue
+        k = (p.get("g"), p.get("t"))
+        if p.get("pool") is not None:
+            placed.add(k)
+        elif k in placed:
+            return True
+    return False
+
+
 def oracle(prop, run):
     """Yields (signature, detail)."""
     obs, world, case = run["obs"], run["world"], run["case"]
@@ -359,6 +373,12 @@ def oracle(prop, run):
                 for p_ in world["workload"]["profiles"] for st in p_["execution_strategies"]
             ):
                 cause = "strategy-with-overlapping-requirement-entries-refused-after-the-fit-check"
+            elif "list.remove(x): x not in list" in msg and not flags["drop_skipped_tasks"] and any(
+                _placed_then_unplaced(d) for d in case.get("decisions", [])
+            ):
+                # one answer places a task and, further down, leaves the same task unplaced: the skip path removes the
+                # cached TASK_PLACEMENT event from the queue although it is still pending in `__handle_scheduler_finish`
+                cause = "task-left-unplaced-after-being-placed-in-the-same-answer"
             else:
                 cause = "unclassified"
             yield (f"C05 run-aborted exc={obs['err']} cause={cause}", {"exc": obs.get("exc")})
@@ -985,6 +1005,27 @@ def shrink_world(world, seed, fails):
     return w
 
 
+def duplicate_answers(decisions):
+    """(number of scheduler answers that decide one task more than once, number of those in which a placed PLACE_TASK
+    decision follows an earlier placed one of the same task)."""
+    ndup = nretime = 0
+    for d in decisions:
+        seen, dup, retime = {}, False, False
+        for p in d.get("placements", []):
+            if p.get("kind") not in ("place", "cancel"):
+                continue
+            k = (p.get("g"), p.get("t"))
+            placed = p["kind"] == "place" and p.get("pool") is not None
+            if k in seen:
+                dup = True
+                if placed and seen[k]:
+                    retime = True
+            seen[k] = seen.get(k, False) or placed
+        ndup += dup
+        nretime += retime
+    return ndup, nretime
+
+
 def run_suite(chk: common.Check, prop: str, n_quick=400, n_thorough=4000, streams=("regular",), extra_specs=None):
     from harness.impl import sim_impl
 
@@ -1008,6 +1049,14 @@ def run_suite(chk: common.Check, prop: str, n_quick=400, n_thorough=4000, stream
         chk.count(f"policy:{world['policy']['name']}")
         chk.count(f"outcome:{obs['err']}")
         chk.count(f"stream:{world['stream']}")
+        # scheduler answers that decide the same task more than once (second decision placed: the cached
+        # TASK_PLACEMENT event is re-timed while it is still pending in `__handle_scheduler_finish`)
+        ndup, nretime = duplicate_answers(r["case"].get("decisions", []))
+        if ndup:
+            chk.count("answers:task-decided-twice", ndup)
+            chk.count("runs:task-decided-twice")
+        if nretime:
+            chk.count("answers:pending-placement-retimed", nretime)
         for rr in obs["rows"]:
             if len(rr) > 1:
                 chk.count(f"row:{rr[1]}")
